@@ -866,6 +866,11 @@ where
                 "Configuration changed"
             );
 
+            // send_buf is expected to have exactly max_packet_size capacity
+            if config.max_packet_size != self.config.max_packet_size {
+                self.send_buf = Vec::with_capacity(config.max_packet_size.get());
+            }
+
             self.config = config;
             Ok(())
         }
